@@ -587,9 +587,38 @@ def run_case(case, ctx):
     else:
         raise M.HarnessError("unknown mode %r" % mode)
 
+    # ---- alternative front end and error path: sample(track, instant) is temporal linear resampling on one instant.
+    # An instant inside the range is judged; instants outside the range are requests that cannot be honoured
+    # (whatever they do is not judged) -- the resampling below runs on the same track object afterwards.
+    hkey = (tms[0] // 7 + len(pts) * 13 + int(tms[-1] % 1000)) % 4
+    if temporal and hkey == 0:
+        t_in = (tms[0] + tms[-1]) // 2 if (tms[0] + tms[-1]) // 2 > tms[0] else tms[-1]
+        o = M.call(I.sample, track, gen.obstime_from_ms(t_in))
+        ctx.monitor("sample.single_instant")
+        if M.is_raised(o):
+            return violated({"what": "sample(track, instant) raised for an instant inside the time range",
+                             "instant_ms": t_in, "raised": o}, sig, True, sorted(cls))
+        one = M.call(lambda: ([o.position.getX()], [o.position.getY()], [o.position.getZ()],
+                              [gen.obstime_to_ms(o.timestamp)]))
+        if M.is_raised(one):
+            return violated({"what": "sample() did not return an observation", "raised": one}, sig, True, sorted(cls))
+        w0, _ = _check_temporal(src, one, [[(Fraction(t_in), 4 * math.ulp(tms[-1] / 1000.0) * 1000.0)]], ctx)
+        if w0:
+            w0["entry"] = "sample(track, instant)"
+            return violated(w0, sig, True, sorted(cls))
+        M.call(I.sample, track, gen.obstime_from_ms(tms[-1] + 5000))
+        if tms[0] >= 5000:
+            M.call(I.sample, track, gen.obstime_from_ms(tms[0] - 5000))
+        cls.add("sample_front_end_and_rejected_instants")
     del _seen_delta[:]
     work = track
-    if mode.endswith("npts"):
+    if mode == "T-track" and hkey == 1:
+        # operator front end: track // reference returns the resampled track
+        res = M.call(lambda: track // call_arg)
+        cls.add("floordiv_operator")
+        if not M.is_raised(res):
+            work = res
+    elif mode.endswith("npts"):
         res = M.call(work.resample, None, I.ALGO_LINEAR, tl_mode, arg)
     elif mode.endswith("factor"):
         res = M.call(work.resample, None, I.ALGO_LINEAR, tl_mode, None, arg)
@@ -640,7 +669,6 @@ def run_case(case, ctx):
     if mode in ("T-list", "T-track") and len(req) >= 1:
         # call history: the SAME reference object (track or list of instants) is used for a second track whose time
         # range reaches beyond the first one's on both sides; it must get every requested instant of ITS range
-        import math
         first2 = min(req[0], tms[0]) - 5000
         last2 = max(req[-1], tms[-1]) + 5000
         if first2 >= 0:
@@ -681,7 +709,8 @@ def classify(case, witness):
 # floors for the call-history workloads added in session 3 (a run in which they were silently skipped is inconclusive)
 _floors_base = floors
 _FLOORS_EXTRA = {'counters': {'numeric_step_lands_exactly_on_last': 50},
-                 'monitors': {'temporal.same_reference_second_track': 1000}}
+                 'monitors': {'temporal.same_reference_second_track': 1000, 'sample.single_instant': 1000},
+                 'classes': {'floordiv_operator': 300}}
 
 
 def floors(tier):
